@@ -138,6 +138,9 @@ func ParseField(v reflect.Value, bytes []byte, params fieldParameters) error {
 		v.Set(reflect.ValueOf(val))
 		return nil
 	case EnumeratedType:
+		if len(bytes) <= talOff {
+			return fmt.Errorf("ENUMERATED without contents")
+		}
 		val, parse_err := parseInt64(bytes[talOff:])
 		if err != nil {
 			return parse_err
@@ -163,6 +166,9 @@ func ParseField(v reflect.Value, bytes []byte, params fieldParameters) error {
 			return nil
 		}
 	case reflect.Int, reflect.Int32, reflect.Int64:
+		if len(bytes) <= talOff {
+			return fmt.Errorf("INTEGER without contents")
+		}
 		if parsedInt, parse_err := parseInt64(bytes[talOff:]); err != nil {
 			return parse_err
 		} else {
